@@ -620,12 +620,47 @@ def _immutable_constant(v):
     return False
 
 
-def outliving_state_reads(fa, expr, at):
+# library decorators that make a function answer from what it computed for an earlier call (by `==` / hash of the
+# arguments: 1, 1.0 and True are one entry)
+RESULT_KEEPERS = {"functools.lru_cache", "functools.cache", "functools.cached_property", "cachetools.cached", "cachetools.cachedmethod"}
+
+
+def keeps_results(fi):
+    """the decorator of function `fi` that keeps its results between calls (a text), or None; the decorator is
+    identified through the module's import table, whatever local name it goes by"""
+    imports = {}
+    for n in ast.walk(fi.module.tree):
+        # (an import written inside a class or function body binds the name just the same)
+        if isinstance(n, ast.Import):
+            for a in n.names:
+                imports.setdefault(a.asname or a.name.split(".")[0], a.name if a.asname else a.name.split(".")[0])
+        elif isinstance(n, ast.ImportFrom):
+            for a in n.names:
+                imports.setdefault(a.asname or a.name, ("." * n.level) + (n.module or "") + ":" + a.name)
+    imports.update(getattr(fi.module, "imports", {}) or {})
+    for d in fi.node.decorator_list:
+        f = d.func if isinstance(d, ast.Call) else d
+        dotted = A.dotted(f)
+        if not dotted:
+            continue
+        head, _, rest = dotted.partition(".")
+        org = imports.get(head)
+        if org is None:
+            continue
+        full = org.replace(":", ".") + ("." + rest if rest else "")
+        if full.lstrip(".") in RESULT_KEEPERS:
+            return ast.unparse(d)
+    return None
+
+
+def outliving_state_reads(fa, expr, at, _depth=2, _seen=()):
     """What the value of `expr` (at CFG node `at`) is read from that outlives the call and can be rebound or
     changed by another one: names the function declares global / nonlocal and reads before it has assigned them,
     module-level variables that some function rebinds or that hold a mutable object, attributes of a class
-    (through its name, `type(x)` or `x.__class__`).  Module-level functions, classes, imports and constants that
-    are never rebound are not state.  Returns the sorted list of such names."""
+    (through its name, `type(x)` or `x.__class__`), and — through the calls the value is computed by, as far as the
+    call graph resolves them to one function of the repository — the results a callee keeps from earlier calls
+    (a result-keeping decorator) or reads from such state itself.  Module-level functions, classes, imports and
+    constants that are never rebound are not state.  Returns the sorted list of such names."""
     mod = fa.fi.module
     declared = set()
     for n in ast.walk(fa.node):
@@ -665,6 +700,41 @@ def outliving_state_reads(fa, expr, at):
         if isinstance(n, ast.Attribute) and isinstance(n.value, ast.Call) and isinstance(n.value.func, ast.Name) and n.value.func.id == "type" \
                 and len(n.value.args) == 1 and not (n.attr.startswith("__") and n.attr.endswith("__")):
             out.add("type(...)." + n.attr)
+    # what the callees keep between calls
+    called = [n for n in ast.walk(full) if isinstance(n, ast.Call)]
+    for a in sorted(atoms):
+        # calls on any of the definitions the value can come from (a local assigned on several branches is not
+        # expanded above, the dependency closure follows all of them)
+        if a.startswith("callq:"):
+            try:
+                called.append(ast.Call(func=ast.parse(a[len("callq:"):], mode="eval").body, args=[], keywords=[]))
+            except SyntaxError:
+                pass
+    for n in called:
+        if _depth <= 0:
+            continue
+        try:
+            cands, _how = fa.ck.cg.resolve(n, fa.fi)
+        except (AnalysisError, RecursionError, AttributeError, KeyError):
+            continue
+        if len(cands) != 1 or cands[0].node is fa.fi.node or cands[0].qual in _seen:
+            continue
+        cal = cands[0]
+        if cal.parent is not None and (cal.parent.node is fa.fi.node or cal.parent.qual == fa.fi.qual):
+            continue    # a function defined inside this one is made anew by every call: what it keeps ends with the call
+        kept = keeps_results(cal)
+        if kept is not None:
+            out.add("the results %s keeps between calls (@%s)" % (cal.qual, kept))
+            continue
+        try:
+            cfa = FA(fa.ck, cal)
+            for r in cfa.returns():
+                if r.value is None or not cfa.nodes(r):
+                    continue
+                for nm in outliving_state_reads(cfa, r.value, cfa.nodes(r)[0], _depth - 1, _seen + (fa.fi.qual, cal.qual)):
+                    out.add(nm if " keeps between calls" in nm else "%s, read by %s" % (nm, cal.qual))
+        except (AnalysisError, RecursionError):
+            continue
     return sorted(out)
 
 
